@@ -7,6 +7,7 @@ From BV Require Gen.G_pool_shape Model.Pool Proofs.PoolSup Proofs.PoolSem Gen.G_
 From BV Require Model.PoolSys Proofs.PoolSysProofs Proofs.PoolRefuted Proofs.PoolMore.
 From BV Require Gen.G_pool_pins.
 From BV Require Model.Pool Model.LaxSem Proofs.PoolTick Model.PoolCrash Proofs.PoolCrashProofs.
+From BV Require Model.PoolLimit Proofs.PoolLimitProofs.
 Import ListNotations.
 Open Scope Z_scope.
 
@@ -171,3 +172,38 @@ Theorem C10_crash_slots_account : forall c n,
     /\ 0 <= LaxSem.value (Pool.sem (PoolCrash.cpar y)).
 Proof. exact PoolCrashProofs.cslots_account. Qed.
 Print Assumptions C10_crash_slots_account.
+
+(* ---- the closed system with hard time limits (Model/PoolLimit.v), schedules without the racy scan:
+   free slots + unresolved jobs + dead workers not yet reaped = the bound, always *)
+Theorem C10_limit_slots_account : forall c n,
+    1 <= Pool.c_n c -> Pool.c_maxr c = None -> Pool.c_soft c = None -> forall y,
+    PoolLimitProofs.lreach c n y -> Pool.putlocks (PoolLimit.lpar y) = true ->
+    LaxSem.value (Pool.sem (PoolLimit.lpar y)) + Z.of_nat (PoolLimitProofs.nunres (PoolLimit.lpar y))
+    + Z.of_nat (length (PoolLimit.dead_workers (PoolLimit.lpar y)))
+    = LaxSem.bound (Pool.sem (PoolLimit.lpar y)).
+Proof. exact PoolLimitProofs.lslots_account. Qed.
+Print Assumptions C10_limit_slots_account.
+
+(* ---- not satisfied by the pinned tree (known finding C10:slot-leaked-when-a-reaped-worker-held-two-jobs):
+   "once the pool is quiet all slots are free again" is refuted by ONE racy scan -- the worker had
+   finished the overdue job (its result still in the pipe) and gone on to the next one; both jobs are
+   resolved, everything is idle, the pool is at size, and 1 of 2 slots is free for ever *)
+Theorem C10_quiet_pool_has_all_slots_refuted :
+  match PoolLimit.lrun (PoolLimit.linit PoolLimitProofs.racy_cfg [Some 5; Some 100] []) PoolLimitProofs.racy_sched with
+  | Some y =>
+    PoolLimit.lidle y = true
+    /\ map (fun x => (Pool.ready x, Pool.value x, Pool.hard x, Pool.time_accepted x)) (Pool.jobs (PoolLimit.lpar y))
+       = [(true, Some (Pool.PTimeLimit (Some 5)), Some 5, Some 1000);
+          (true, Some (Pool.PLost (-15) 1), Some 100, Some 1009)]
+    /\ Pool.now (PoolLimit.lpar y) = 1020
+    /\ PoolLimit.lwk y = [(1, None); (2, None)]
+    /\ Pool.wlist (PoolLimit.lpar y) = [1; 2]
+    /\ LaxSem.value (Pool.sem (PoolLimit.lpar y)) = 1
+    /\ LaxSem.bound (Pool.sem (PoolLimit.lpar y)) = 2
+    /\ length (filter PoolLimit.is_racy PoolLimitProofs.racy_sched) = 1%nat
+    /\ option_map (fun z => LaxSem.value (Pool.sem (PoolLimit.lpar z)))
+         (PoolLimit.lrun y [PoolLimit.LTick; PoolLimit.LAdvance 50; PoolLimit.LScan false; PoolLimit.LTick]) = Some 1
+  | None => False
+  end.
+Proof. exact PoolLimitProofs.racy_scan_loses_a_slot. Qed.
+Print Assumptions C10_quiet_pool_has_all_slots_refuted.
